@@ -1079,6 +1079,51 @@ def _m_pgap_legacy(P, T, rng):
     _pin_model_with_gap(P, T, 'fcgap_thickness')
 
 
+# ---- nan / inf literals inside LISTS of numbers (these keys reach the
+#      checks as text, the scalar ones as floats)
+def _list_literal(section, key, lit, where='FuelModel'):
+    def fn(P, T, rng):
+        t = P['types'][T]
+        if where in ('FuelModel', 'PinModel'):
+            if where == 'PinModel':
+                _pin_model_with_gap(P, T, 'gap_thickness')
+                t['PinModel']['gap_thickness'] = 0.0
+                t['PinModel'].pop('gap_material', None)
+            v = list(t[where][key])
+            if len(v) < 2:
+                v = v + [0.5]
+                if where == 'FuelModel':
+                    for k2 in ('pu_frac', 'zr_frac', 'porosity', 'r_frac'):
+                        if k2 != key and len(t[where][k2]) < 2:
+                            t[where][k2] = list(t[where][k2]) + [
+                                0.5 if k2 == 'r_frac' else t[where][k2][0]]
+                else:
+                    t[where]['pin_material'] = ['pin_own', 'pin_own']
+            v[-1] = lit
+            t[where][key] = v
+        elif where == 'Setup':
+            P['setup']['axial_plane'] = [round(0.3 * P['length'], 4), lit]
+        else:
+            P['setup_sub']['AssemblyTables'] = {'tab1': {
+                'type': 'coolant_subchannel', 'assemblies': [1],
+                'axial_positions': [round(0.3 * P['length'], 4), lit]}}
+    return fn
+
+
+for _w, _k, _need in (('FuelModel', 'pu_frac', ('fuel',)),
+                      ('FuelModel', 'porosity', ('fuel',)),
+                      ('FuelModel', 'r_frac', ('fuel',)),
+                      ('PinModel', 'r_frac', ('nolf',)),
+                      ('Setup', 'axial_plane', ()),
+                      ('AssemblyTables', 'axial_positions', ())):
+    for _lit in ('nan', 'inf'):
+        CATALOG.append({'id': '%s/%s[last]=%s_literal' % (_w, _k, _lit),
+                        'key': '%s/%s' % (_w, _k),
+                        'fault': '%s literal' % _lit, 'expect': 'reject',
+                        'needs': tuple(_need),
+                        'fn': _list_literal(_w, _k, _lit, _w)})
+
+
 @mut('num_rings=one', 'Assembly/num_rings', 'single pin', 'safe',
      needs=('nolf',))
 def _m_nr1(P, T, rng):
